@@ -229,6 +229,17 @@ func H_c12_abc_t() { c12Abc(2, 3) }
 // c12Builder: arbitrary Add sequences; rejected adds must not change what is built.
 func c12Builder(K, L int) {
 	var db Builder
+	// the builder may have been used before and re-initialised: the build that follows must
+	// not depend on that
+	switch rt.Choice("reuse", 3) {
+	case 1:
+		db.Add(rt.Bytes("old", rt.Choice("oldlen", 2)))
+		db.Initialise()
+	case 2:
+		db.Add(rt.Bytes("old", rt.Choice("oldlen", 2)))
+		db.Finish()
+		db.Initialise()
+	}
 	k := rt.Choice("nadds", K+1)
 	var accepted [][]byte
 	for i := 0; i < k; i++ {
